@@ -59,9 +59,42 @@ Section Replay.
     destruct (equiv_block b c) eqn:E; cbn [fst snd replay]; [|reflexivity].
     rewrite R, E. reflexivity.
   Qed.
+  (* contract level: the log is a list with one (optional) entry per block; blocks beyond the end of
+     a truncated log are kept; one error stops the replay *)
+  Fixpoint replay_all (bs : list (list instr)) (ls : list (option log)) : option (list (list instr)) :=
+    match bs with
+    | [] => Some []
+    | b :: bs' =>
+      match replay b (hd None ls) with
+      | None => None
+      | Some c => match replay_all bs' (tl ls) with None => None | Some cs => Some (c :: cs) end
+      end
+    end.
+
+  (* the logs written by the run of a whole contract reproduce every block of that run *)
+  Theorem replay_all_own_log : forall bs,
+    replay_all bs (map (fun b => snd (optimize b)) bs) = Some (map (fun b => fst (optimize b)) bs).
+  Proof.
+    induction bs as [|b bs IH]; [reflexivity|].
+    cbn [replay_all map hd tl]. rewrite replay_own_log, IH. reflexivity.
+  Qed.
+
+  (* any list of log entries (edited, truncated, reordered, foreign): error, or one block per input
+     block, each obtained by an accepted replay of some entry -- so [replay_safe] applies to it *)
+  Theorem replay_all_safe : forall bs ls cs, replay_all bs ls = Some cs ->
+    Forall2 (fun b c => exists l, replay b l = Some c) bs cs.
+  Proof.
+    induction bs as [|b bs IH]; intros ls cs H; cbn [replay_all] in H.
+    - inversion H. constructor.
+    - destruct (replay b (hd None ls)) as [c|] eqn:E; [|discriminate].
+      destruct (replay_all bs (tl ls)) as [cs'|] eqn:E'; [|discriminate].
+      inversion H; subst cs. constructor; [exists (hd None ls); exact E | exact (IH _ _ E')].
+  Qed.
 End Replay.
 Print Assumptions replay_safe.
 Print Assumptions replay_own_log.
+Print Assumptions replay_all_own_log.
+Print Assumptions replay_all_safe.
 
 (* non-vacuity: a log entry that rebuilds to an equivalent block is replayed, a tampered one is an error *)
 Example replay_accepts :
@@ -71,4 +104,13 @@ Proof. vm_compute. reflexivity. Qed.
 Example replay_rejects_tampered :
   replay nat (fun b e => if Nat.eqb e 0 then Some [IDup 2; ISwap 5] else Some [IDup 2; ISwap 4])
          [ISwap 1; ISwap 4; IDup 5; ISwap 2; ISwap 1] (Some 1) = None.
+Proof. vm_compute. reflexivity. Qed.
+(* contract level: a truncated log keeps the remaining blocks, one tampered entry is an error *)
+Example replay_all_truncated :
+  replay_all nat (fun b e => Some [IDup 2; ISwap 5])
+         [[ISwap 1; ISwap 4; IDup 5; ISwap 2; ISwap 1]; [IPop]] [Some 0] = Some [[IDup 2; ISwap 5]; [IPop]].
+Proof. vm_compute. reflexivity. Qed.
+Example replay_all_rejects :
+  replay_all nat (fun b e => Some [IDup 2; ISwap 5])
+         [[ISwap 1; ISwap 4; IDup 5; ISwap 2; ISwap 1]; [IPop]] [Some 0; Some 0] = None.
 Proof. vm_compute. reflexivity. Qed.
